@@ -230,6 +230,11 @@ class QvmCpu:
         self.error_handler_active = False
         self.trapped_addr = 0
 
+        # operand stack depth at the start of the statement being
+        # executed; only tracked while an error handler is armed
+        self.stmt_start_depth = None
+        self._stmt_starts = None
+
         self.received_keyboard_interrupt = False
         signal.signal(signal.SIGINT, self.signal_handler)
 
@@ -316,6 +321,11 @@ class QvmCpu:
             self.received_keyboard_interrupt = False
             self._trap(TrapCode.KEYBOARD_INTERRUPT)
             return
+
+        if self.trap_target is not None and \
+           not self.error_handler_active and \
+           self.pc in self._get_stmt_starts():
+            self.stmt_start_depth = len(self.stack)
 
         self.prev_pc = self.pc
         instr_addr = self.pc
@@ -410,6 +420,37 @@ class QvmCpu:
 
         return instr, operands, idx - addr
 
+    def _get_stmt_starts(self):
+        # addresses at which a (non-empty) statement starts, according
+        # to the debug info; the operand stack holds no partial results
+        # there
+        if self._stmt_starts is None:
+            starts = set()
+            debug_info = self.module.debug_info
+            if debug_info is not None:
+                for stmt in debug_info.stmts:
+                    if stmt.end_offset <= stmt.start_offset:
+                        continue
+                    if type(stmt.node).__name__.endswith('Clause'):
+                        # part of a CASE statement
+                        continue
+                    op_code = self.module.code[stmt.start_offset]
+                    instr = op_code_to_instr.get(op_code)
+                    if instr is not None and instr.op == 'frame':
+                        # arguments are still on the stack here
+                        continue
+                    starts.add(stmt.start_offset)
+            self._stmt_starts = starts
+        return self._stmt_starts
+
+    def _drop_partial_results(self):
+        # an error in the middle of an expression leaves operands of
+        # the unfinished statement on the stack; the handler (or the
+        # next statement) must not see them
+        depth = self.stmt_start_depth
+        if depth is not None and depth <= len(self.stack):
+            del self.stack[depth:]
+
     def trap(self, code, **kwargs):
         self.trapped_addr = self.prev_pc
         raise Trapped(trap_code=code, trap_kwargs=kwargs)
@@ -422,6 +463,7 @@ class QvmCpu:
 
         if not self.error_handler_active and \
            self.trap_target is not None:
+            self._drop_partial_results()
             if self.trap_target == 'next':
                 try:
                     self._exec_errresn()
